@@ -9,6 +9,7 @@ import (
 	"github.com/nspcc-dev/neofs-node/internal/vrt"
 	objectcore "github.com/nspcc-dev/neofs-node/pkg/core/object"
 	"github.com/nspcc-dev/neofs-sdk-go/object"
+	oid "github.com/nspcc-dev/neofs-sdk-go/object/id"
 )
 
 // stored objects of the search harness: id -> value of user attribute "N"
@@ -17,9 +18,26 @@ var c03vals = [...]string{1: "1", 2: "7", 3: "12", 4: "x7", 5: "", 6: "-3", 7: "
 
 const c03max = "115792089237316195423570985008687907853269984665640564039457584007913129639935"
 
+// a second user attribute "M" of the same objects, and a third one, "K", that
+// every object carries with the same value (a primary filter that keeps all)
+var c03mvals = [...]string{1: "3", 2: "x", 3: "", 4: "8", 5: "1", 6: "y", 7: "20"}
+
 type c03flt struct {
-	op  object.SearchMatchType
-	val string
+	op   object.SearchMatchType
+	val  string
+	attr string // "" = N
+}
+
+func (f c03flt) of(id int) string {
+	switch f.attr {
+	case "M":
+		return c03mvals[id]
+	case "K":
+		return "k"
+	case object.FilterCreationEpoch:
+		return "1"
+	}
+	return c03vals[id]
 }
 
 func c03matches(v string, f c03flt) bool {
@@ -71,26 +89,45 @@ func VerifC03Search() {
 	db := vmNewDB(&vmEpoch{e: 3})
 	for id := 1; id < len(c03vals); id++ {
 		o := vmObj(0, byte(id), object.TypeRegular, -1, 4)
+		attrs := []object.Attribute{object.NewAttribute("K", "k")}
 		if c03vals[id] != "" {
-			o.SetAttributes(object.NewAttribute("N", c03vals[id]))
+			attrs = append(attrs, object.NewAttribute("N", c03vals[id]))
 		}
+		if c03mvals[id] != "" {
+			attrs = append(attrs, object.NewAttribute("M", c03mvals[id]))
+		}
+		o.SetAttributes(attrs...)
 		vrt.Assert(db.Put(o) == nil, "put")
 	}
-	queries := [][]c03flt{
-		{{object.MatchNumGE, "5"}},
-		{{object.MatchNumLT, "10"}, {object.MatchNumGT, "5"}},
-		{{object.MatchNumGT, "5"}, {object.MatchNumLT, "10"}},
-		{{object.MatchNumLE, "7"}},
-		{{object.MatchStringEqual, "7"}},
-		{{object.MatchStringNotEqual, "7"}},
-		{{object.MatchCommonPrefix, "1"}},
-		{{object.MatchNotPresent, ""}},
-		{{object.MatchStringEqual, "7"}, {object.MatchNumGT, "10"}},
-		{{object.MatchNumGE, "-3"}, {object.MatchStringNotEqual, "12"}},
-		{{object.MatchNumLE, c03max}},
-		{{object.MatchNumGE, "-" + c03max}},
+	// one object may have been physically removed before the search
+	removed := 0
+	if vrt.Bool("oneObjectPhysicallyRemoved") {
+		removed = 1 + vrt.Choice("removedObject", len(c03vals)-1)
+		_, _, err := db.Delete(vmCID(0), []oid.ID{vmOID(byte(removed))})
+		vrt.Assert(err == nil, "physical removal")
 	}
-	qnames := [...]string{"N>=5", "N<10 && N>5", "N>5 && N<10", "N<=7", "N==7", "N!=7", "N prefix 1", "N absent", "N==7 && N>10", "N>=-3 && N!=12", "N<=2^256-1", "N>=-(2^256-1)"}
+	queries := [][]c03flt{
+		{{object.MatchNumGE, "5", ""}},
+		{{object.MatchNumLT, "10", ""}, {object.MatchNumGT, "5", ""}},
+		{{object.MatchNumGT, "5", ""}, {object.MatchNumLT, "10", ""}},
+		{{object.MatchNumLE, "7", ""}},
+		{{object.MatchStringEqual, "7", ""}},
+		{{object.MatchStringNotEqual, "7", ""}},
+		{{object.MatchCommonPrefix, "1", ""}},
+		{{object.MatchNotPresent, "", ""}},
+		{{object.MatchStringEqual, "7", ""}, {object.MatchNumGT, "10", ""}},
+		{{object.MatchNumGE, "-3", ""}, {object.MatchStringNotEqual, "12", ""}},
+		{{object.MatchNumLE, c03max, ""}},
+		{{object.MatchNumGE, "-" + c03max, ""}},
+		// filters over different attributes: a primary one that keeps everything,
+		// then numeric ones on N and on M
+		{{object.MatchStringEqual, "k", "K"}, {object.MatchNumGE, "5", ""}, {object.MatchNumLT, "10", "M"}},
+		{{object.MatchStringEqual, "k", "K"}, {object.MatchNumLT, "10", "M"}, {object.MatchNumGE, "5", ""}},
+		{{object.MatchNumGE, "0", "M"}, {object.MatchNumGE, "5", ""}},
+		// a system attribute every object has (its integer index entry must go with the object)
+		{{object.MatchNumGE, "0", object.FilterCreationEpoch}},
+	}
+	qnames := [...]string{"N>=5", "N<10 && N>5", "N>5 && N<10", "N<=7", "N==7", "N!=7", "N prefix 1", "N absent", "N==7 && N>10", "N>=-3 && N!=12", "N<=2^256-1", "N>=-(2^256-1)", "K==k && N>=5 && M<10", "K==k && M<10 && N>=5", "M>=0 && N>=5", "creationEpoch>=0"}
 	qi := vrt.Choice("query", len(queries))
 	q := queries[qi]
 	withAttr := vrt.Bool("attributeRequested")
@@ -100,11 +137,19 @@ func VerifC03Search() {
 	}
 	var fs object.SearchFilters
 	for _, f := range q {
-		fs.AddFilter("N", f.val, f.op)
+		a := f.attr
+		if a == "" {
+			a = "N"
+		}
+		fs.AddFilter(a, f.val, f.op)
+	}
+	primary := q[0].attr
+	if primary == "" {
+		primary = "N"
 	}
 	var attrs []string
 	if withAttr && q[0].op != object.MatchNotPresent {
-		attrs = []string{"N"}
+		attrs = []string{primary}
 	}
 	// reference result set
 	var want [8]bool
@@ -112,7 +157,10 @@ func VerifC03Search() {
 	for id := 1; id < len(c03vals); id++ {
 		ok := true
 		for _, f := range q {
-			ok = ok && c03matches(c03vals[id], f)
+			ok = ok && c03matches(f.of(id), f)
+		}
+		if id == removed {
+			ok = false
 		}
 		want[id] = ok
 		if ok {
@@ -145,7 +193,7 @@ func VerifC03Search() {
 			seen[id]++
 			total++
 			if len(attrs) > 0 {
-				vrt.Assert(len(it.Attributes) == 1 && it.Attributes[0] == c03vals[id], "the requested attribute value is returned")
+				vrt.Assert(len(it.Attributes) == 1 && it.Attributes[0] == q[0].of(id), "the requested attribute value is returned")
 			}
 		}
 		if next == nil {
@@ -159,7 +207,11 @@ func VerifC03Search() {
 		if want[id] {
 			vrt.Assert(seen[id] == 1, "every matching object is returned exactly once across the pages"+qname)
 		} else {
-			vrt.Assert(seen[id] == 0, "objects that do not satisfy every filter are never returned"+qname)
+			if id == removed {
+				vrt.Assert(seen[id] == 0, "a physically removed object is never returned"+qname)
+			} else {
+				vrt.Assert(seen[id] == 0, "objects that do not satisfy every filter are never returned"+qname)
+			}
 		}
 	}
 	vrt.Reach("end")
